@@ -11,7 +11,7 @@ META = {
                    "R2 walkdir contract W1 (min_depth/max_depth clamp each other): a min>max comparison must dominate the walk; "
                    "R3 error arm of the walk loop: non-zero status, diagnostic, returns to the loop head on every path; "
                    "R4 exactly one evaluation of the expression per fetched entry; R5 from_walkdir decision table: only a not-found error whose lstat succeeds becomes an entry (dangling link), no error swallowed; W3 root DirEntry not used when following",
-    "decides": "how the walker is configured from the command line and how each item it yields (entry or error) is consumed, on every path",
+    "decides": "R1 also: -mindepth is not delegated to walkdir (contract W6: its own lower bound uses the stack depth); how the walker is configured from the command line and how each item it yields (entry or error) is consumed, on every path",
     "does_not_decide": "completeness/uniqueness of walkdir's own enumeration and its loop detection (trusted dependency)",
 }
 
